@@ -70,8 +70,10 @@ def gen_schedule(r):
         if x < 0.45:
             f = r.choice(pulses)
             body.append(f"{r.choice(['', '', 'NONBLOCKING '])}PULSE {f} {_wave(r)}")
-        elif x < 0.7:
+        elif x < 0.65:
             body.append(_rf_instruction(r, frames))
+        elif x < 0.75:
+            body.append(r.choice(["RESET 0", "RESET 1", "RESET 2", "RESET"]))
         else:
             body.append(r.choice(classical))
     return _deffs(frames) + DECLS + "\n".join(body) + "\n"
@@ -81,12 +83,15 @@ def gen_memory_schedule(r):
     regions = ["f", "g", "ro[0]", "ro[1]"]
     ops = ["MOVE {a} 1.0", "MOVE {a} {b}", "ADD {a} {b}", "MUL {a} {a}", "SUB {a} 2.0", "EXCHANGE {a} {b}", "NEG {a}",
            'SET-FREQUENCY 0 "rf" {a}', 'SHIFT-PHASE 0 "rf" {a}+{b}', 'NONBLOCKING CAPTURE 0 "ro_rx" flat(duration: 1e-6, iq: 1) {c}',
-           'NONBLOCKING RAW-CAPTURE 0 "ro_rx" 1e-6 raw[0]', 'NONBLOCKING PULSE 0 "rf" flat(duration: {a}, iq: 1)', "GT k {a} {b}", "LOAD {a} v i", "STORE v i {a}"]
+           'NONBLOCKING RAW-CAPTURE 0 "ro_rx" 1e-6 raw[0]', 'NONBLOCKING PULSE 0 "rf" flat(duration: {a}, iq: 1)', "GT k {a} {b}", "LOAD {a} v i", "STORE v i {a}",
+           # readout into the same region from frames that nothing else orders
+           'NONBLOCKING CAPTURE 1 "ro_rx" flat(duration: 1e-6, iq: 1) {c}', 'CAPTURE 2 "ro_rx" flat(duration: 1e-6, iq: 1) {c}',
+           'NONBLOCKING RAW-CAPTURE 1 "ro_rx" 1e-6 raw[0]', 'RAW-CAPTURE 2 "ro_rx" 1e-6 raw[0]', "MOVE f raw[1]", "ADD g {c}"]
     body = []
     for _ in range(r.randrange(3, 13)):
         a, b = r.choice(regions), r.choice(regions)
         body.append(r.choice(ops).format(a=a, b=b, c=r.choice(["ro[0]", "ro[1]"])))
-    return _deffs(['0 "rf"', '0 "ro_rx"']) + DECLS + "\n".join(body) + "\n"
+    return _deffs(['0 "rf"', '0 "ro_rx"', '1 "ro_rx"', '2 "ro_rx"']) + DECLS + "\n".join(body) + "\n"
 
 
 def gen_frame_match(r):
@@ -171,9 +176,10 @@ def _definitions(r, tag=""):
         elif k == 2:
             out.append(f"DEFWAVEFORM w{n}:\n    {r.choice('123')}, 2")
         elif k == 3:
-            out.append(f"DEFCAL {r.choice(['X', 'Y'])} {r.choice(['0', '1', 'q'])}:\n    {r.choice(['Z', 'H'])} {r.choice('345')}")
+            # (qubits shared with the body and with other calibrations; the same signature may come again)
+            out.append(f"DEFCAL {r.choice(['X', 'Y'])} {r.choice(['0', '1', 'q'])}:\n    {r.choice(['Z', 'H'])} {r.choice('012345')}")
         elif k == 4:
-            out.append(f"DEFCAL MEASURE {r.choice(['0', 'q'])} addr:\n    X {r.choice('67')}")
+            out.append(f"DEFCAL MEASURE {r.choice(['0', 'q'])} addr:\n    X {r.choice('0167')}")
         elif k == 5:
             out.append(f"DEFCIRCUIT C{n} q:\n    X q")
         elif k == 6:
@@ -452,7 +458,8 @@ def gen_statements(r):
              "X {l}", "MEASURE {l} ro", "JUMP-WHEN @a ro[{l}]", "PRAGMA foo {l}", "SHIFT-PHASE 0 \"rf\" {l}", "FENCE {l}", "RESET {l}", "CALL f {l}",
              "DECLARE y REAL[2] SHARING ro OFFSET {l} BIT", "DEFGATE G AS PERMUTATION:\n    {l}, 1", "PULSE 0 \"rf\" flat(duration: {l}, iq: {l})",
              "CAPTURE 0 \"rf\" flat(duration: 1, iq: 1) ro[{l}]", "RAW-CAPTURE 0 \"rf\" {l} ro", "ro[0", "MOVE ro[", "RX( 0", "EQ ro ro", "NONBLOCKING", "NONBLOCKING X 0"]
-    return "DECLARE ro BIT[2]\n" + "\n".join(r.choice(forms).replace("{l}", lit(), 1).replace("{l}", lit()) for _ in range(r.randrange(1, 5))) + "\n"
+    # (now and then without a final newline: the last token of the text is then the last token of a statement)
+    return "DECLARE ro BIT[2]\n" + "\n".join(r.choice(forms).replace("{l}", lit(), 1).replace("{l}", lit()) for _ in range(r.randrange(1, 5))) + r.choice(["\n", "\n", ""])
 
 
 def gen_tokens(r):
@@ -473,6 +480,18 @@ def gen_names(r):
     out = [f"DECLARE {n} REAL" for n in dict.fromkeys(names)]
     for _ in range(4):
         out.append(f"RX({r.choice(names)}{r.choice(['', '[0]', ' * 2', ' + ' + r.choice(names)])}) 0")
+    # gate, label, waveform, frame and pragma names in mixed case, including case variants of the standard gates
+    gate = r.choice(["swap", "Cz", "rx", "h", "cnot", "Xy", "myGate", "ISWAP", "cPhase"])
+    if r.random() < 0.5:
+        out.append(f"DEFGATE {gate} AS MATRIX:\n    1, 0\n    0, 1")
+    out.append(f"{gate} {r.choice('01')}")
+    out.append(f"LABEL @{r.choice(['Loop', 'END', 'start_Here'])}")
+    out.append(f"PRAGMA {r.choice(['Foo', 'bar', 'INITIAL_rewiring'])} x")
+    if r.random() < 0.5:
+        out.append(f"DEFWAVEFORM {r.choice(['myWave', 'W', 'gaussQ'])}:\n    1, 2")
+    if r.random() < 0.5:
+        fn = r.choice(["Rf", "ro_RX", "XY"])
+        out.append(f'DEFFRAME 0 "{fn}":\n    SAMPLE-RATE: 1.0\nPULSE 0 "{fn}" {r.choice(["Flat", "gaussian", "myWave"])}(duration: 1, iq: 1)')
     return "\n".join(out) + "\n"
 
 
